@@ -36,7 +36,7 @@ def load_results(path, wd):
 
 def strip(j):
     j = dict(j)
-    for k in ('tid', 't0', 't1'):
+    for k in ('tid', 't0', 't1', 'interleaved'):
         j.pop(k, None)
     return j
 
@@ -73,7 +73,7 @@ def run(tier, seed):
     drvd, _ = build.ensure('tsan')
     exe = os.path.join(drvd, 'vdrv')
     plan = [(8, 40), (2, 24), (16, 48), (4, 32)] if tier == 'quick' else [(t, 48) for t in (2, 3, 4, 8, 12, 16) for _ in range(7)]
-    total_jobs = overlaps = reports_total = compared_files = calls = 0
+    total_jobs = overlaps = reports_total = compared_files = calls = interleaved = 0
     threads_seen = set()
     samples = []
     for run_i, (T, n) in enumerate(plan):
@@ -111,6 +111,11 @@ def run(tier, seed):
                     continue
                 total_jobs += 1
                 calls += len(b['log'])
+                for which, x in (('sequential', a), ('threaded', b)):
+                    if x.get('interleaved') is not None:
+                        interleaved += 1
+                        if x['interleaved'] != 'same':
+                            vs.append(Violation(PROP, '%s:interleaved-readers' % PROP, 'workload %s (%s run): two readers alive on one thread and used alternately do not return what each returns alone (%s)' % (c['id'], which, x['interleaved']), {'case': c, 'threads': T}))
                 iv.append((b['t0'], b['t1'], b['tid']))
                 if strip(a) != strip(b):
                     part = 'log' if a['log'] != b['log'] else 'decoded-records'
@@ -137,7 +142,7 @@ def run(tier, seed):
             runner.cleanup(wd_seq)
             runner.cleanup(wd_mt)
     obs = dict(runs=len(plan), thread_counts=sorted(threads_seen), workloads_compared=total_jobs, api_calls_in_threaded_runs=calls, overlapping_workload_pairs_on_different_threads=overlaps,
-               tsan_report_blocks=reports_total, output_files_compared_bytewise=compared_files)
+               tsan_report_blocks=reports_total, output_files_compared_bytewise=compared_files, reader_pairs_used_alternately_on_one_thread=interleaved)
     cov = dict(evaluations=total_jobs, distinct_nontrivial=total_jobs,
                rule='independent export (plain/gzip/xz, name/fd) + read-back + render workloads assigned round-robin to N threads of one process built with -fsanitize=thread, random yields/sleeps between workloads; '
                     'oracle: zero ThreadSanitizer report blocks; API logs, decoded dumps and output bytes identical to the same workloads run on one thread; every workload is a distinct seeded history',
